@@ -406,17 +406,31 @@ def per_case(one: Callable[[Any], list], kind: str = '') -> Callable[[list], lis
   library while replaying a behaviour the spec allows is itself a mismatch, not a crash."""
   import traceback
 
+  def _run(c):
+    try:
+      return list(one(c))
+    except MachineryError:
+      raise
+    except Exception as ex:   # pylint: disable=broad-except
+      tb = traceback.format_exc().splitlines()
+      return [{'case': c, 'sig': f'{kind}:exception:{type(ex).__name__}',
+               'detail': f'code raised {type(ex).__name__}: {str(ex)[:300]} | ' + ' / '.join(tb[-6:])[:600]}]
+
   def _many(cases):
-    out = []
-    for c in cases:
-      try:
-        out.extend(one(c))
-      except MachineryError:
-        raise
-      except Exception as ex:   # pylint: disable=broad-except
-        tb = traceback.format_exc().splitlines()
-        out.append({'case': c, 'sig': f'{kind}:exception:{type(ex).__name__}',
-                    'detail': f'code raised {type(ex).__name__}: {str(ex)[:300]} | ' + ' / '.join(tb[-6:])[:600]})
+    out, first = [], None
+    for i, c in enumerate(cases):
+      res = _run(c)
+      if i == 0:
+        first = [m.get('sig') for m in res if m.get('sig') != '__stat__']
+      out.extend(res)
+    # state across calls: the first behaviour is executed once more after all the others (caches,
+    # memoised tables, arrays modified in place); whatever it did not report then, it must not report now
+    if len(cases) > 1 and os.environ.get('VERIF_NO_REPEAT') != '1':
+      for m in _run(cases[0]):
+        if m.get('sig') != '__stat__' and m.get('sig') not in first:
+          m = dict(m, sig=str(m.get('sig')) + ':after_other_calls',
+                   detail='(the same behaviour executed again after the other cases of this worker) ' + str(m.get('detail')))
+          out.append(m)
     return out
   _many.__name__ = getattr(one, '__name__', 'replay')
   return _many
